@@ -9,11 +9,14 @@ Open Scope N_scope.
 (* the pushes that the code (as modelled) holds back until the subscription has started:
    client subscribe command: joins, leaves and publications with an offset (all pushes once
    the offset-0 patch is in); server-side Client.Subscribe: positioned publications only *)
+(* reply/push written BEFORE the commit: the client path, and the patched server path *)
+Definition client_like (c : cfg) : bool :=
+  match c_var c with VClient => true | VServer => c_fix_srvorder c end.
+
 Definition guarded (c : cfg) (f : frame) : bool :=
-  match c_var c with
-  | VClient => if c_fix_off0 c then is_push f else is_real_push f
-  | VServer => c_pos c && is_pos_pub f
-  end.
+  if client_like c
+  then (if c_fix_off0 c then is_push f else is_real_push f)
+  else c_pos c && is_pos_pub f.
 
 Fixpoint no_guarded_before_start (c : cfg) (l : list frame) : bool :=
   match l with
@@ -31,7 +34,7 @@ Definition dl_frame (d : dstate) : option frame :=
 Record BInv (c : cfg) (s : st) : Prop := {
   b_q : closed s = true -> quiet (pc s) = true;
   b_started : pre_start (pc s) = false -> has_start (log s) = true;
-  b_sub : c_var c = VClient -> forall pos pep, ch s = Sub pos pep -> has_start (log s) = true;
+  b_sub : client_like c = true -> forall pos pep, ch s = Sub pos pep -> has_start (log s) = true;
   b_dl : forall f, dl_frame (dl s) = Some f -> guarded c f = true -> has_start (log s) = true;
   b_log : no_guarded_before_start c (log s) = true
 }.
@@ -41,7 +44,7 @@ Proof. intros c. constructor; cbn; intros; try discriminate; auto. Qed.
 
 Lemma guarded_push : forall c f, guarded c f = true -> is_push f = true.
 Proof.
-  intros c f. unfold guarded. destruct (c_var c).
+  intros c f. unfold guarded. destruct (client_like c).
   - destruct (c_fix_off0 c); [auto|]. destruct f; cbn; auto.
   - destruct (c_pos c); [|discriminate]. destruct f; cbn; auto.
 Qed.
@@ -129,7 +132,7 @@ Proof.
               | apply ngbs_app; [exact Blog|apply ngbs_one; exact Hg] ] end).
   (* b_dl: a push enters the enqueue stage *)
   all: try (intros f0 Hf Hg; inv_some Hf; unfold guarded in Hg;
-            destruct (c_var c) eqn:Hv;
+            destruct (client_like c) eqn:Hv;
             [ destruct (c_fix_off0 c) eqn:Hfix; cbn [is_push is_real_push] in Hg;
               try match goal with E : (po ?p =? 0) = true |- _ => rewrite E in Hg end;
               try discriminate; try congruence; eapply Bsub; eauto
@@ -142,6 +145,7 @@ Proof.
             first [ match goal with Hq : sub_quiet _ = true |- _ => exact Hq end
                   | rewrite (e_pending c s IE); [reflexivity|congruence]
                   | apply (e_cleanup c s IE); assumption ]).
+  all: try (intros Hcl; exfalso; unfold client_like, is_server in *; destruct (c_var c); congruence).
   (* LCheck on a publication *)
   pose proof (check_pub_fields c s p lag) as F. cbv zeta in F.
   destruct F as (F1 & F2 & F3 & F4 & F5 & F6 & F7 & F8 & F9 & F10 & F11 & F12 & F13 & F14 & F15 & F16).
@@ -152,7 +156,7 @@ Proof.
   - intros f0 Hf Hg. destruct (dl (check_pub c s p lag)) as [|q lagq phq|] eqn:Ed; try discriminate.
     + destruct phq; try discriminate. cbn in Hf. inv_some Hf.
       destruct (check_pub_penq c s p lag q lagq Hd Ed) as [-> (pos0 & pep0 & Hs)].
-      unfold guarded in Hg. destruct (c_var c) eqn:Hv; [eapply Bsub; eauto|].
+      unfold guarded in Hg. destruct (client_like c) eqn:Hv; [eapply Bsub; eauto|].
       destruct (c_pos c) eqn:Hpos; [|discriminate]. cbn [andb is_pos_pub] in Hg.
       apply Bst.
       assert (Hw : in_window (pc s) = false).
@@ -200,7 +204,7 @@ Lemma ngbs_ext_pos : forall c l, (forall f, guarded c f = is_pos_pub f) ->
 Proof. intros c l H. induction l as [|f l IH]; [reflexivity|]. cbn. rewrite H, IH. reflexivity. Qed.
 
 Theorem c10_client_after_start_real : forall c ls s,
-  c_var c = VClient -> c_fix_off0 c = false -> c_batch c = false ->
+  client_like c = true -> c_fix_off0 c = false -> c_batch c = false ->
   run c init ls = Some s -> no_real_push_before_start (log s) = true.
 Proof.
   intros c ls s Hv Hf Hb H. rewrite <- (ngbs_ext_real c).
@@ -209,7 +213,7 @@ Proof.
 Qed.
 
 Theorem c10_client_after_start_patched : forall c ls s,
-  c_var c = VClient -> c_fix_off0 c = true -> c_batch c = false ->
+  client_like c = true -> c_fix_off0 c = true -> c_batch c = false ->
   run c init ls = Some s -> no_push_before_start (log s) = true.
 Proof.
   intros c ls s Hv Hf Hb H. rewrite <- (ngbs_ext_push c).
@@ -218,7 +222,7 @@ Proof.
 Qed.
 
 Theorem c10_server_after_start_positioned : forall c ls s,
-  c_var c = VServer -> c_pos c = true -> c_batch c = false ->
+  client_like c = false -> c_pos c = true -> c_batch c = false ->
   run c init ls = Some s -> no_pos_pub_before_start (log s) = true.
 Proof.
   intros c ls s Hv Hp Hb H. rewrite <- (ngbs_ext_pos c).
@@ -294,7 +298,7 @@ Qed.
 
 (* (a) client subscribe command (non-positioned here; the same schedule works positioned):
    a publication without offset is pushed between the hub registration and the reply *)
-Definition cfg_a := mkCfg VClient false false 0 0 true false false false false.
+Definition cfg_a := mkCfg VClient false false 0 0 true false false false false false false.
 Definition sched_a : list label :=
   [LReserve; LStartBuf; LHubAdd; LPublishNoHist false; LDeliver 0%nat false; LEnqueue;
    LHistRead; LMerge; LWriteReply; LCommit; LStopBuf].
@@ -305,13 +309,13 @@ Example c10_refuted_offset0_log :
 Proof. vm_compute. reflexivity. Qed.
 (* the patched model drops it *)
 Example c10_offset0_patched :
-  log (run_lenient (mkCfg VClient false false 0 0 true false false false true) init sched_a)
+  log (run_lenient (mkCfg VClient false false 0 0 true false false false true false false) init sched_a)
   = [FSubReply false [] 0 0].
 Proof. vm_compute. reflexivity. Qed.
 
 (* (b) server-side Client.Subscribe commits before it writes the subscribe push: a join
    (or any publication of a non-positioned channel) overtakes the push *)
-Definition cfg_b := mkCfg VServer true false 0 0 true false false false false.
+Definition cfg_b := mkCfg VServer true false 0 0 true false false false false false false.
 Definition sched_b : list label :=
   [LReserve; LStartBuf; LHubAdd; LHistRead; LMerge; LCommit; LJoinEv; LDeliver 0%nat false; LCheck; LEnqueue;
    LSrvPush; LStopBuf].
@@ -320,7 +324,7 @@ Proof. apply c10_refute. vm_compute. reflexivity. Qed.
 Example c10_refuted_server_join_log :
   option_map log (run cfg_b init sched_b) = Some [FJoin; FSubPush 0 1].
 Proof. vm_compute. reflexivity. Qed.
-Definition cfg_b2 := mkCfg VServer false false 0 0 false false false false false.
+Definition cfg_b2 := mkCfg VServer false false 0 0 false false false false false false false.
 Definition sched_b2 : list label :=
   [LReserve; LStartBuf; LHubAdd; LHistRead; LMerge; LCommit; LPublish false 100%nat; LDeliver 0%nat false;
    LSync; LCheck; LEnqueue; LSrvPush; LStopBuf].
@@ -330,7 +334,7 @@ Proof. apply c10_refute. vm_compute. reflexivity. Qed.
 (* (c) per-channel batching: unsubscribe deletes the channel writer while a broadcast sits
    between CheckPosition and Enqueue; the enqueue re-creates the writer and its flush
    writes the publication after the unsubscribe reply *)
-Definition cfg_c := mkCfg VClient true false 0 0 false false false true false.
+Definition cfg_c := mkCfg VClient true false 0 0 false false false true false false false.
 Definition sched_c : list label :=
   [LReserve; LStartBuf; LHubAdd; LHistRead; LMerge; LWriteReply; LCommit; LStopBuf;
    LPublish false 100%nat; LDeliver 0%nat false; LSync; LCheck; LUnsub UClient; LEnqueue;
